@@ -29,6 +29,8 @@ type c20Case struct {
 
 var c20Names = []struct{ written, plain string }{
 	{"a", "a"}, {"A", "A"}, {"B", "B"}, {`"a b"`, "a b"}, {`'q'`, "q"}, {"_x1", "_x1"},
+	// characters that SQL quoting and other quoting conventions treat differently
+	{`"d\f"`, `d\f`}, {`'s"h'`, `s"h`},
 }
 var c20Cons = []string{"", "primary key", "not null", "primary key not null", "unique", "default 1"}
 
@@ -332,6 +334,26 @@ func c20Worker(raw json.RawMessage) (res *engine.Result) {
 		if verr == nil {
 			res.Violate("rejected-definition-left-registered:"+feature, "after the rejected CREATE (%v) s3db_version('t') answers %v instead of 'table not found' [%s]", err, v, where)
 		}
+		// the same rejected definition on a prefix that holds two unmerged versions (an open of such a prefix
+		// by a writable table merges and commits): still nothing may be written
+		{
+			w2 := engine.NewWorldOn(engine.NewBucketFrom(c20TwoHeads()))
+			w2.SetClock(engine.T(2000))
+			c2 := w2.NewClient("c")
+			e2 := c2.Exec(create)
+			if e2 == nil {
+				res.Violate("invalid-definition-accepted-on-populated-prefix:"+feature, "definition rejected on an empty prefix (%v) is accepted on a populated one [%s]", err, where)
+			}
+			for _, rq := range w2.B.LogSince(0) {
+				if rq.Mutating() {
+					res.Violate("rejected-definition-wrote:"+feature, "rejected CREATE (%v) on a prefix with two unmerged versions issued %s [%s]", e2, rq.String(), where)
+					break
+				}
+			}
+			w2.Close()
+			w.MakeCurrent()
+			res.Trans++
+		}
 		err2 := cl.Exec("create virtual table {T} using s3db(columns='k primary key, v', s3_bucket='bk', s3_endpoint='verif://c', s3_prefix='p2')")
 		if err2 != nil {
 			res.Violate("rejected-definition-blocks-name:"+feature, "after the rejected CREATE (%v) a valid CREATE with the same name fails: %v [%s]", err, err2, where)
@@ -470,4 +492,27 @@ func c20RawExpect(raw string) c20Expect {
 		return e
 	}
 	return c20Expect{Why: "malformed argument list", Key: -1}
+}
+
+var c20TwoHeadsObjs map[string][]byte
+
+// c20TwoHeads is a bucket whose prefix p holds two unmerged versions (two writers side by side).
+func c20TwoHeads() map[string][]byte {
+	if c20TwoHeadsObjs != nil {
+		return c20TwoHeadsObjs
+	}
+	w := engine.NewWorld()
+	w.SetClock(engine.T(100))
+	var cs []*engine.Client
+	for i := 0; i < 2; i++ {
+		c := w.NewClient(fmt.Sprintf("h%d", i))
+		must(c.Create(engine.TableOpts{Columns: "a primary key, b"}))
+		cs = append(cs, c)
+	}
+	for i, c := range cs {
+		must(c.Exec("insert into {T} values(?,?)", 100+i, "h"))
+	}
+	w.Close()
+	c20TwoHeadsObjs = w.B.Snapshot()
+	return c20TwoHeadsObjs
 }
